@@ -143,10 +143,15 @@ fn build_compare_op(
             quote!(),
             quote! {
                 const _: () = {
+                    trait __AssertFieldsEq {
+                        fn _f(this: &Self);
+                    }
                     #[allow(clippy::double_parens)]
                     #[allow(unused_parens)]
-                    fn _f #impl_g (this: &#this_ty) #wheres {
-                        #body
+                    impl #impl_g __AssertFieldsEq for #this_ty #wheres {
+                        fn _f(this: &Self) {
+                            #body
+                        }
                     }
                 };
             },
